@@ -414,6 +414,36 @@ def run(chk):
         if not same_contour(g0, g1, 1e-9 * max(g0.usable_width, g0.depth)):
             chk.fail('history-dependent', f"{name}{kw} built before and after a series of infeasible requests gives two different contours", {'groove': name, 'kwargs': kw})
             break
+    # a groove is the same groove after it has been copied, deep-copied or pickled: same resolved values, same contour (with and without a pad angle)
+    import copy as _copy
+    import pickle as _pickle
+    for name, kw in CATALOGUE[::2]:
+        if chk.failures:
+            break
+        for pad in ({}, {'pad_angle': 30}):
+            try:
+                g0 = build(name, dict(kw, **pad))
+            except Exception:      # noqa
+                continue
+            for how, fn in (('copy.copy', _copy.copy), ('copy.deepcopy', _copy.deepcopy), ('pickle', lambda g: _pickle.loads(_pickle.dumps(g)))):
+                chk.cov['evaluations'] += 1
+                try:
+                    g1 = fn(g0)
+                except Exception as e:      # noqa
+                    if how == 'pickle':      # not every groove can be pickled today (local classes); copies can always be made
+                        continue
+                    chk.fail('copy-differs', f"{name}{dict(kw, **pad)}: {how} raises {type(e).__name__}: {str(e)[:100]}", {'groove': name, 'kwargs': dict(kw, **pad), 'how': how})
+                    break
+                vals = [(k, float(getattr(g0, k)), float(getattr(g1, k))) for k in ('r1', 'r2', 'depth', 'usable_width', 'pad_angle', 'width', 'alpha1', 'alpha2')
+                        if isinstance(getattr(g0, k, None), (int, float, np.floating))]
+                off = [(k, a, b) for k, a, b in vals if not abs(a - b) <= 1e-12 * max(1, abs(a))]
+                if off or not same_contour(g0, g1, 1e-12 * max(g0.usable_width, g0.depth)):
+                    chk.fail('copy-differs', f"{name}{dict(kw, **pad)}: the groove obtained by {how} is another groove: "
+                             f"{', '.join(f'{k} {a:.9g} -> {b:.9g}' for k, a, b in off) or 'same resolved values'}; contour vertices {len(g0.contour_points)} -> {len(g1.contour_points)}",
+                             {'groove': name, 'kwargs': dict(kw, **pad), 'how': how})
+                    break
+            if chk.failures:
+                break
     chk.x_stats['refusals_between_rebuilds'] = refused
     chk.cov['distinct_nontrivial'] += built
     chk.sample({'groove': 'FalseRoundGroove', 'kwargs': {'depth': 31.8646, 'r1': 5, 'r2': 38, 'flank_height': 7.037185254850074, 'pad_angle': 30}})
